@@ -44,7 +44,11 @@ package scorch
 //@   requires ns != nil
 //@   ensures nestedClosed(ns, result) && all(x, uint32, implies(bin(deleted, x), bin(result, x)))
 //@ assume func segment.PersistedSegment.Path(seg)
+// the bookkeeping maps of segment files (ineligibleForRemoval, copyScheduled) are keyed by base file
+// names: isBaseName marks the strings that are base names
+//@ uf isBaseName(name string) bool
 //@ assume func filepath.Base(path)
+//@   ensures isBaseName(result)
 //@ assume func segment.FieldStatsReporter.UpdateFieldStats(fsr, stats)
 
 // ---- helpers of the snapshot types (trusted: reference counting, sizes and statistics are not
@@ -77,8 +81,8 @@ package scorch
 //@   props C01
 //@   mode int
 //@   locks
-//@   trusted file removal bookkeeping (C12) is not under contract here
-//@   requires s != nil && !held(s.rootLock) && rheld(s.rootLock) == 0
+//@   trusted a map delete under the root lock
+//@   requires s != nil && !held(s.rootLock) && rheld(s.rootLock) == 0 && isBaseName(filename)
 //@ func newFieldStats
 //@   props C01
 //@   mode int
@@ -124,7 +128,7 @@ package scorch
 //@   loop 0: invariant runningOffsets(newSnapshot.segment, newSnapshot.offsets, len(newSnapshot.segment)) && segsOKn(newSnapshot.segment, len(newSnapshot.segment))
 //@   loop 0: invariant implies(len(newSnapshot.segment) == 0, running == 0) && implies(len(newSnapshot.segment) > 0, running == newSnapshot.offsets[len(newSnapshot.segment)-1] + segDocs(newSnapshot.segment[len(newSnapshot.segment)-1].segment)) && running <= 4294967296 * iter
 //@   loop 0: invariant docsToPersistCount <= 4294967296 * iter && memSegments <= iter && fileSegments <= iter && newSnapshot.internal != nil && fresh(newSnapshot.internal) && (cap(droppedSegmentFiles) == 0 || fresh(droppedSegmentFiles))
-//@   loop 0: invariant next.internal == old(next.internal)
+//@   loop 0: invariant next.internal == old(next.internal) && forall(k, 0, len(droppedSegmentFiles), isBaseName(droppedSegmentFiles[k]))
 //@   loop 1: invariant newSnapshot != nil && newSnapshot.internal != nil && fresh(newSnapshot.internal) && next.internal == old(next.internal) && root.internal == old(s.root.internal)
 //@   loop 2: invariant newSnapshot != nil && newSnapshot.internal != nil && fresh(newSnapshot.internal) && next.internal == old(next.internal)
 //@   loop 3: invariant s != nil && !held(s.rootLock) && rheld(s.rootLock) == 0 && s.root == newSnapshot
